@@ -1,4 +1,5 @@
 import Cirbo.Proofs.GenArith
+import Cirbo.Proofs.GenDiv
 /-!
 # C09 — Subtraction, comparison and gadget generators are exact
 
@@ -11,7 +12,8 @@ import Cirbo.Proofs.GenArith
 -- OBLIGATION: c09_pairwise_xor
 -- OBLIGATION: c09_pairwise_if_then_else
 -- OBLIGATION: c09_outputs_only_when_asked
--- PARTIAL: add_div_mod (floor(a/b), a mod b, (0,0) for b=0) and add_sqrt (floor(sqrt a) on ceil(n/2) bits) are modelled one-to-one (Model/Gen2.lean), compared gate for gate with the code and checked on all operand values by the search on every run; their value theorems are not proved yet (the frame theorem covers them: they are Prog programs). add_equal is proved for width >= 1 (width 0 is outside the stated domain: every other generator rejects it). Fuel-free: none of these generators uses fuel.
+-- OBLIGATION: c09_div_mod
+-- PARTIAL: add_div_mod is proved (restoring-division invariant a = Q*2^i*b + rem, rem < b*2^i, through the descending loop; OR-prefixes of the divisor; zero-divisor masking). add_sqrt (floor(sqrt a) on ceil(n/2) bits) is modelled one-to-one (Model/Gen2.lean), compared gate for gate with the code and checked on all operand values by the search on every run; its value theorem is not proved yet (the frame theorem covers it: it is a Prog program). add_equal is proved for width >= 1 (width 0 is outside the stated domain: every other generator rejects it). Fuel-free: none of these generators uses fuel.
 -/
 namespace Cirbo
 
@@ -167,6 +169,25 @@ theorem c09_outputs_only_when_asked {st st' : GSt} {i t e out : Label} {rl : Opt
     · exact .add _ _ _ (.add _ _ _ (.add _ _ _ (.add _ _ _ (by simp only [Bool.false_eq_true, if_false]; exact .pure _))))
     · exact .fail _
 
+/-- **`add_div_mod`** on arbitrary host gates (equal widths, either endianness): for `b ≠ 0` the
+results are `⌊a/b⌋` and `a mod b`; for `b = 0` both are `0`; both have the operands' width -/
+theorem c09_div_mod {st st' : GSt} {x y q r : List Label} {be : Bool}
+    (h : (addDivMod x y be).run st = .ok ((q, r), st')) (hw : WFS st.c)
+    (hx : ∀ l ∈ x, l ∈ st.c.labels) (hy : ∀ l ∈ y, l ∈ st.c.labels)
+    {b v : Label → Bool} (hv : IsValB st.c b v) :
+    q.length = x.length ∧ r.length = x.length ∧
+    ∃ v', IsValB st'.c b v' ∧ (∀ l ∈ st.c.labels, v' l = v l) ∧
+      (valLE v (revIf y be) = 0 → valLE v' (revIf q be) = 0 ∧ valLE v' (revIf r be) = 0) ∧
+      (0 < valLE v (revIf y be) →
+        valLE v' (revIf q be) = valLE v (revIf x be) / valLE v (revIf y be) ∧
+        valLE v' (revIf r be) = valLE v (revIf x be) % valLE v (revIf y be)) := by
+  obtain ⟨v', h1, h2, h3⟩ := run_total h hw hv
+  obtain ⟨e1, e2, e3, e4⟩ := sem_addDivMod h3
+  rw [valLE_congr (v := v) (v' := v') (fun l hl => h2 l (hx l (mem_revIf.mp hl))),
+    valLE_congr (v := v) (v' := v') (fun l hl => h2 l (hy l (mem_revIf.mp hl)))] at e4
+  rw [valLE_congr (v := v) (v' := v') (fun l hl => h2 l (hy l (mem_revIf.mp hl)))] at e3
+  exact ⟨e1, e2, v', h1, h2, e3, e4⟩
+
 #print axioms c09_generators_only_add_fresh_gates
 #print axioms c09_sub_two_numbers
 #print axioms c09_subtract_with_compare
@@ -176,5 +197,6 @@ theorem c09_outputs_only_when_asked {st st' : GSt} {i t e out : Label} {rl : Opt
 #print axioms c09_pairwise_xor
 #print axioms c09_pairwise_if_then_else
 #print axioms c09_outputs_only_when_asked
+#print axioms c09_div_mod
 
 end Cirbo
